@@ -193,7 +193,7 @@ def apply_gain_explicit(y, n, dt, G):
         wgt[-1] = 1.0                               # the Nyquist bin is its own mirror image
         Y[-1] = Y[-1].real
     # y'[m] = (1/n) * sum_k wgt_k * Re[ Y_k exp(+2 pi i k m / n) ]
-    out = (np.conj(E).T @ (wgt * Y)).real / n
+    out = np.conj(E.T @ np.conj(wgt * Y)).real / n     # = (conj(E).T @ (wgt*Y)).real / n, without a copy of E
     return [float(v) for v in out]
 
 
